@@ -34,11 +34,14 @@ ASSUMPTIONS = [
 KINDS = ("transit", "exit", "rexit", "renter", "enter")
 
 
-def h(sym, n, ngo, auxes, symticks, parent, symstart):
+def h(sym, n, ngo, auxes, symticks, parent, symstart, readied=False):
     prog, info = flostep.family(sym, n, ngo=ngo, auxes=auxes, parent=parent, near_in_cur=True, host_in_cur=False,
                                 force_same=True)
     controls = [START] + [RUN] * symticks
     plan = [None if symstart else {"*": 1}]
+    if readied:      # readied while every guard holds, then started with symbolic guards: the start must check again
+        controls = [4] + controls
+        plan = [{"*": 1}] + plan
     text, out = flostep.run(sym, prog, controls, plan=plan)
     hosts = {}
     for (name, kind, host) in info["aux"]:
@@ -84,6 +87,8 @@ def h(sym, n, ngo, auxes, symticks, parent, symstart):
                       "tick %d elapsed %s/%s recurred %s/%s\n%s" % (k, r["elapsed"], f["elapsed"], r["recurred"], f["recurred"], text))
             if control == START:
                 sym.check(r["status"] == 0, "C08/refused-start-not-stopped", "status %s" % r["status"])
+                if readied:
+                    sym.cover("start-refused-after-ready")
         prev = robs
     return True
 
@@ -91,19 +96,23 @@ def h(sym, n, ngo, auxes, symticks, parent, symstart):
 def obligations(tier):
     out = []
     if tier == "quick":
-        cfgs = [(3, 1, (), 1, True), (3, 1, ("plain",), 1, False), (3, 1, ("plain", "plain"), 1, False)]
+        cfgs = [(3, 1, (), 1, True), (3, 1, ("plain",), 1, False), (3, 1, ("plain", "plain"), 1, False), (3, 1, ("plain",), 0, True, True)]
     else:
         cfgs = [(3, 2, (), 2, True), (4, 1, (), 1, True), (3, 1, ("plain",), 2, False), (3, 1, ("plain",), 1, True),
-                (4, 1, ("plain",), 1, False), (3, 2, ("plain", "plain"), 1, False), (3, 1, ("plain", "plain"), 2, False)]
-    for (n, ngo, auxes, symticks, symstart) in cfgs:
+                (4, 1, ("plain",), 1, False), (3, 2, ("plain", "plain"), 1, False), (3, 1, ("plain", "plain"), 2, False),
+                (3, 1, ("plain",), 1, True, True), (4, 1, (), 0, True, True)]
+    for cfg in cfgs:
+        (n, ngo, auxes, symticks, symstart) = cfg[:5]
+        readied = cfg[5] if len(cfg) > 5 else False
         for parent in flostep.all_forests(n):
             if len(auxes) == 2 and parent == list(range(-1, n - 1)):
                 continue   # single chain: both hosts always in the start outline (only the known finding is reachable)
             out.append(Ob("step/N%d-go%d-%s-sym%d-%s/%s" % (n, ngo, "+".join(auxes) or "noaux", symticks,
-                                                           "symstart" if symstart else "started",
+                                                           ("readied-symstart" if readied else "symstart") if symstart else "started",
                                                            "".join("r" if q < 0 else str(q) for q in parent)),
-                          h, dict(n=n, ngo=ngo, auxes=auxes, symticks=symticks, parent=parent, symstart=symstart),
-                          budget=400 if tier == "quick" else 1200, covers=["guarded-enter", "refused"],
+                          h, dict(n=n, ngo=ngo, auxes=auxes, symticks=symticks, parent=parent, symstart=symstart, readied=readied),
+                          budget=400 if tier == "quick" else 1200,
+                          covers=["guarded-enter", "refused"] + (["start-refused-after-ready"] if readied else []),
                           bounds=dict(frames=n, forest=parent, first="any", transitions=ngo, auxes=list(auxes),
                                       symbolic_ticks=symticks + (1 if symstart else 0), share_values="[0,1]")))
     return out
